@@ -706,6 +706,63 @@ def run_history(c):
 
 
 # ----------------------------------------------------------------------
+# harness evaluation of the power input it writes (never dassh's numbers)
+def profile_integral(cells, pins):
+    """exact integral (W) of a user power spec: pins[cell][pin] = polynomial
+    coefficients (W/m) in zeta in [-1/2, 1/2] over the cell"""
+    tot = 0.0
+    for kc in range(len(cells) - 1):
+        dz = cells[kc + 1] - cells[kc]
+        for co in pins[kc]:
+            tot += dz * sum(c * (0.5 ** (j + 1) - (-0.5) ** (j + 1)) / (j + 1)
+                            for j, c in enumerate(co))
+    return tot
+
+
+def poly_max(co):
+    """max over zeta in [-1/2, 1/2] of sum co[j] zeta^j: end points plus the
+    stationary point (closed form up to degree 2, fine grid above)"""
+    cand = [-0.5, 0.5]
+    co = [float(x) for x in co]
+    if len(co) == 3 and co[2] != 0.0:
+        z = -co[1] / (2.0 * co[2])
+        if -0.5 <= z <= 0.5:
+            cand.append(z)
+    elif len(co) > 3:
+        cand += [-0.5 + j / 4000.0 for j in range(4001)]
+    return max(sum(c * z ** j for j, c in enumerate(co)) for z in cand)
+
+
+def peak_linear_power(pins):
+    """true grouping parameter of a pin-temperature optimisation: the peak
+    over the axial direction of the pin-average linear power"""
+    best = None
+    for cell in pins:
+        deg = max(len(co) for co in cell)
+        avg = [sum((co[j] if j < len(co) else 0.0) for co in cell) / len(cell)
+               for j in range(deg)]
+        v = poly_max(avg)
+        best = v if best is None else max(best, v)
+    return best
+
+
+def order_problem(groups, true_param, margin=1e-6):
+    """no member of a later group exceeds a member of an earlier group by more
+    than the margin (relative; parameters closer than that count as tied)"""
+    labs = sorted(set(groups))
+    for a in labs:
+        later = [true_param[i] for i in range(len(groups)) if groups[i] > a]
+        if not later:
+            continue
+        lo = min(true_param[i] for i in range(len(groups)) if groups[i] == a)
+        hi = max(later)
+        if hi > lo * (1.0 + margin):
+            return ('order', 'an assembly in a group after group %d has a larger true grouping '
+                    'parameter than a member of group %d' % (a, a), hi, lo)
+    return None
+
+
+# ----------------------------------------------------------------------
 # Part D: the real input path (DASSH_Input -> Orificing.__init__ ->
 # group_by_power with the real _get_power / Reactor -> run_parametric on its
 # recycle branch -> distribute) for two assembly types on a 7-position core
@@ -730,8 +787,18 @@ def cases_d(tier):
                     ((('bab', 'ba'), ('aba', 'ba')) if tier == 'thorough' else ()):
                 for lim in limits:
                     for k in ((1, 2, 3) if tier == 'thorough' else (1, 2)):
-                        out.append({'values': vals, 'n': 7, 'lo': lo, 'hi': hi, 'layout': lay,
-                                    'pattern': pat, 'order': order, 'limit': lim, 'n_groups': k})
+                        # (power_scaling_factor, total_power / sum of the CSV powers);
+                        # 1.0 = key absent from the input
+                        sc = [(1.0, 1.0)]
+                        if tier == 'thorough':
+                            if order == 'ab' and lim != 'loose':
+                                sc += [(1.5, 1.0), (1.5, 0.8), (1.0, 0.8)]
+                        elif pat == 'bab' and lim == 'none':
+                            sc += [(1.5, 1.0), (1.5, 0.8)]
+                        for (scale, renorm) in sc:
+                            out.append({'values': vals, 'n': 7, 'lo': lo, 'hi': hi, 'layout': lay,
+                                        'pattern': pat, 'order': order, 'limit': lim,
+                                        'n_groups': k, 'scale': scale, 'renorm': renorm})
     return out
 
 
@@ -744,7 +811,17 @@ def run_real(c):
     vals, k = c['values'], c['n_groups']
     n = len(vals)
     cp = _cp()
-    pw = powers_of(vals)
+    npin = S.n_pins(2)
+    nominal = powers_of(vals)
+    # the CSV the harness writes: flat pin profiles; the power dassh must
+    # work with is its exact integral x normalisation x scaling factor
+    specs = [{'cells': [0.0, D_LEN], 'pins': [[[nominal[i] / npin / D_LEN] for _ in range(npin)]]}
+             for i in range(n)]
+    csv_pw = [profile_integral(sp['cells'], sp['pins']) for sp in specs]
+    scale, renorm = float(c.get('scale', 1.0)), float(c.get('renorm', 1.0))
+    total_power = None if renorm == 1.0 else float(round(renorm * sum(csv_pw)))
+    norm = 1.0 if total_power is None else total_power / sum(csv_pw)
+    pw = [q * norm * scale for q in csv_pw]
     m_total = sum(pw) / (cp * (T_BULK - T_IN))
     tnames = D_PATTERNS[c['pattern']]
     names = list(D_NAMES) if c['order'] == 'ab' else list(D_NAMES)[::-1]
@@ -754,7 +831,6 @@ def run_real(c):
     dp_lim = {'none': None, 'tight': _dp(1, 0.8 * q_max, True) / 1e6,
               'loose': _dp(1, 2.0 * q_max, True) / 1e6}[c['limit']]
     dsn = S.design(2)
-    npin = S.n_pins(2)
     orif = {'assemblies_to_group': names, 'n_groups': k,
             'value_to_optimize': 'peak coolant temp', 'bulk_coolant_temp': T_BULK,
             'convergence_tol': 0.002, 'iteration_limit': 2, 'recycle_results': True}
@@ -766,9 +842,12 @@ def run_real(c):
            'types': {nm: dict(dsn) for nm in D_NAMES},
            'assign': [[t, rg, ps, {'flowrate': 1.0}]
                       for t, (rg, ps) in zip(tnames, S.core_positions(2))],
-           'power': {'asm': {str(i + 1): {'rings': 2, 'cells': [0.0, D_LEN], 'pins': 'uniform',
-                                          'q': pw[i] / npin / D_LEN} for i in range(n)}},
+           'power': {'asm': {str(i + 1): specs[i] for i in range(n)}},
            'orificing': orif}
+    if scale != 1.0:
+        scn['power']['scaling'] = scale
+    if total_power is not None:
+        scn['power']['total'] = total_power
     site = 'orificing.py:run_parametric'
     r['states'] = 1
     r['traces'] = 1
@@ -791,10 +870,9 @@ def run_real(c):
             return r
         r['transitions'] += 1
         gd = np.asarray(o.group_data, dtype=float)
-        if gd.shape != (n, 3) or [float(x) for x in gd[:, 0]] != [float(i) for i in range(n)] \
-                or max(abs(gd[i, 1] - pw[i]) for i in range(n)) > 1e-9 * max(pw):
+        if gd.shape != (n, 3) or [float(x) for x in gd[:, 0]] != [float(i) for i in range(n)]:
             V.append(violation('assembly-lost', c, 'group_data of the real path is not one row per '
-                               'assembly (id order, own power)', gd.tolist(), pw,
+                               'assembly in id order', gd.tolist(), None,
                                site='orificing.py:_group'))
             r['outcome'] = 'malformed'
             return r
@@ -805,6 +883,9 @@ def run_real(c):
             r['outcome'] = V[0]['kind']
             return r
         groups = [int(x) for x in groups]
+        op = order_problem(groups, pw)
+        if op:
+            V.append(violation(op[0], c, op[1], op[2], op[3], 1e-6, site='orificing.py:_group'))
         try:
             o.run_parametric()
         except SystemExit:
@@ -849,6 +930,111 @@ def run_real(c):
         r['info'] = {'groups': groups, 'm': m, 'm_lim': m_lim, 'types': tnames, 'names': names}
     return r
 
+
+
+# ----------------------------------------------------------------------
+# Part E: real input path with a pin-temperature optimisation variable: the
+# grouping parameter is the peak linear power, which the real _get_power takes
+# from AssemblyPower.calculate_avg_peak_linear_power; the order of the groups is
+# judged on the harness's own peak of the profiles it wrote
+E_Q0 = 2500.0        # W/m per pin
+E_SHAPES = {'flat': (1.0, 0.0, 0.0),        # peak factor 1.0
+            'below': (1.0, -0.8, -1.6),     # parabola peaked at zeta = -0.25, factor 1.1
+            'at': (1.0, 0.0, -1.6),         # peaked at the cell centre, factor 1.0
+            'above': (1.0, 0.8, -1.6)}      # peaked at zeta = +0.25, factor 1.1
+E_OPTS = ('peak clad MW temp', 'peak clad ID temp', 'peak fuel temp')
+E_FUEL = {'clad_material': 'ss316', 'gap_material': 'sodium', 'fcgap_thickness': 0.0002,
+          'r_frac': [0.0, 0.33333, 0.66667], 'pu_frac': [0.0, 0.0, 0.0],
+          'zr_frac': [0.1, 0.1, 0.1], 'porosity': [0.0, 0.0, 0.0]}
+
+
+def cases_e(tier):
+    out = []
+    amps = VALUES if tier == 'thorough' else (1.0, 1.02, 1.1, 1.5)
+    layouts = ('h02', 'h135') if tier == 'thorough' else ('h02',)
+    for a_hot in amps:
+        for a_rest in amps:
+            for s_hot in ('below', 'at', 'above', 'flat'):
+                for s_rest in ('below', 'at', 'above', 'flat'):
+                    if s_hot == s_rest:
+                        continue      # one common shape: parameter scaled consistently
+                    for lay in layouts:
+                        for k in (2, 3):
+                            opts = E_OPTS if (tier == 'thorough' or
+                                              (s_hot, s_rest, k) == ('below', 'flat', 2)) \
+                                else E_OPTS[:1]
+                            for opt in opts:
+                                for ncell in ((1, 2) if tier == 'thorough' else (1,)):
+                                    out.append({'a_hot': a_hot, 'a_rest': a_rest, 's_hot': s_hot,
+                                                's_rest': s_rest, 'layout': lay, 'n_groups': k,
+                                                'opt': opt, 'cells': ncell, 'n': 7})
+    return out
+
+
+def run_linear(c):
+    import dassh
+    from .. import scenario as S
+    r = new_result()
+    V = r['violations']
+    n, k = 7, c['n_groups']
+    npin = S.n_pins(2)
+    hot = D_LAYOUTS[c['layout']]
+    cells = [0.0, D_LEN] if c['cells'] == 1 else [0.0, 0.2, D_LEN]
+    specs = []
+    for i in range(n):
+        a, sh = (c['a_hot'], c['s_hot']) if i in hot else (c['a_rest'], c['s_rest'])
+        # assemblies of one class differ by 0.1 % steps so that no two are tied
+        a = a * (1.0 - 0.001 * (i % 3))
+        co = [a * E_Q0 * x for x in E_SHAPES[sh]]
+        pins = [[list(co) for _ in range(npin)]]
+        if c['cells'] == 2:
+            # lower cell: flat at 90 % of the amplitude (never the peak)
+            pins = [[[0.9 * a * E_Q0, 0.0, 0.0] for _ in range(npin)]] + pins
+        specs.append({'cells': cells, 'pins': pins})
+    true_param = [peak_linear_power(sp['pins']) for sp in specs]
+    dsn = S.design(2, fuelmodel=dict(E_FUEL))
+    scn = {'setup': {'log_progress': 0, 'calc_energy_balance': False},
+           'core': {'inlet': T_IN, 'length': D_LEN, 'coolant': COOLANT, 'gap_model': 'no_flow',
+                    'pitch': round(max(dsn['duct_ftf']) + 0.004, 9)},
+           'types': {'fuel': dsn},
+           'assign': [['fuel', rg, ps, {'flowrate': 1.0}] for (rg, ps) in S.core_positions(2)],
+           'power': {'asm': {str(i + 1): specs[i] for i in range(n)}},
+           'orificing': {'assemblies_to_group': ['fuel'], 'n_groups': k,
+                         'value_to_optimize': c['opt'], 'bulk_coolant_temp': T_BULK}}
+    r['states'] = 1
+    r['traces'] = 1
+    r['nontrivial'] = True
+    site = 'orificing.py:_group'
+    with S.Built(scn) as b:
+        try:
+            o = dassh.Orificing(b.inp())
+            o.group_by_power()
+        except SystemExit:
+            r['outcome'] = 'exit'
+            return r
+    r['transitions'] = 1
+    gd = np.asarray(o.group_data, dtype=float)
+    if gd.shape != (n, 3) or [float(x) for x in gd[:, 0]] != [float(i) for i in range(n)]:
+        V.append(violation('assembly-lost', c, 'group_data of the real path is not one row per '
+                           'assembly in id order', gd.tolist(), None, site=site))
+        r['outcome'] = 'malformed'
+        return r
+    groups = [float(x) for x in gd[:, 2]]
+    for (kind, what, obs, exp) in partition_problems(groups, k):
+        V.append(violation(kind, c, what, obs, exp, site=site))
+    if not V:
+        groups = [int(x) for x in groups]
+        op = order_problem(groups, true_param)
+        if op:
+            V.append(violation(op[0], c, op[1] + ' (true peak linear powers %s, groups %s, dassh '
+                               'parameter %s)' % ([round(x, 1) for x in true_param], groups,
+                                                  [round(float(x), 1) for x in gd[:, 1]]),
+                               op[2], op[3], 1e-6, site=site))
+    r['outcome'] = V[0]['kind'] if V else 'ok'
+    r['info'] = {'groups': [int(x) for x in gd[:, 2]], 'true': true_param}
+    r['extra'] = {'linear_split': {'hot-first' if min(int(gd[i, 2]) for i in hot) == 0
+                                   else 'hot-later': 1}}
+    return r
 
 
 # ----------------------------------------------------------------------
@@ -933,6 +1119,19 @@ def main(run):
             'vacuous-alphabet', {'part': 'real-input'},
             'real-input alphabet did not reach unconstrained, capped (interleaved types) and '
             'error outcomes', out_d, None), part='real-input'))
+    ce = cases_e(run.tier)
+    re_ = run.explore('real-linear', ce, run_linear, budget_s=120)
+    run.notes['real_linear_cases'] = len(ce)
+    # vacuity: bottom-peaked assemblies with the larger true peak but the lower
+    # end-point value must have been grouped ahead of flatter ones
+    n_sens = sum(1 for c, r in zip(ce, re_) if r['outcome'] == 'ok' and c['s_hot'] == 'below'
+                 and c['s_rest'] in ('flat', 'at') and c['a_hot'] < c['a_rest'] < 1.09 * c['a_hot'])
+    split = run.extra.get('linear_split', {})
+    if not n_sens or not split.get('hot-first') or not split.get('hot-later'):
+        run.violations.append(dict(violation(
+            'vacuous-alphabet', {'part': 'real-linear'},
+            'no grouping in which a bottom-peaked assembly outranks a flatter one only through its '
+            'interior maximum', [n_sens, split], None), part='real-linear'))
 
 
 def replay(body):
@@ -942,7 +1141,7 @@ def replay(body):
               'check, rerun the tier to re-evaluate)' % (body.get('what'), body.get('observed')))
         return 1
     fn = {'grouping': run_group, 'distribution': run_distribute, 'histories': run_history,
-          'real-input': run_real}.get(part)
+          'real-input': run_real, 'real-linear': run_linear}.get(part)
     if fn is None:
         print('no replay for part', part)
         return 1
